@@ -153,7 +153,7 @@ def recurrence(db, ctx):
     cand = None
     for ifn, ps in ((x, p) for x, p in walk(f.hir) if x.get("k") == "If"):
         c = cmp_atom(ifn["cond"])
-        if c and any(local_name(s) == "min_cost" or _is_min_local(f, s) for s in (c[1], c[2])):
+        if c and any(_is_min_local(f, s) for s in (c[1], c[2])):
             cand = c[1] if not (_is_min_local(f, c[1])) else c[2]
     if cand is None:
         raise AnchorMissing("connect_node: comparison with the running minimum")
@@ -166,15 +166,58 @@ def recurrence(db, ctx):
     ctx.floor(4)
 
 
-def _is_min_local(f, e):
-    """a local initialised with i32::MAX"""
-    nm = local_name(e)
-    if nm is None:
-        return False
+def _place(e):
+    """('local', lid) for a local, ('tuple', lid, n) for field n of a tuple-typed local, else None"""
+    e = peel_casts(e)
+    if not isinstance(e, dict):
+        return None
+    if e.get("k") == "Path" and e.get("res") == "local":
+        return ("local", e["lid"])
+    if e.get("k") == "Field" and not e.get("adt") and str(e.get("name", "")).isdigit():
+        b = peel(e["e"])
+        if b.get("k") == "Path" and b.get("res") == "local":
+            return ("tuple", b["lid"], int(e["name"]))
+    return None
+
+
+def _min_places(f):
+    """places that hold the running minimum: a `let mut` local initialised with i32::MAX, or the component of a `let mut` tuple
+    accumulator whose initial value is i32::MAX"""
+    out = set()
     for n, _ in walk(f.hir):
-        if n.get("k") == "Let" and n["pat"].get("name") == nm and "init" in n:
-            return lit_int(n["init"]) == 2147483647
-    return False
+        if n.get("k") == "Let" and "init" in n and n["pat"].get("k") == "Bind":
+            init = peel(n["init"])
+            if lit_int(init) == 2147483647:
+                out.add(("local", n["pat"]["lid"]))
+            elif init.get("k") == "Tup":
+                for i_, el in enumerate(init["elems"]):
+                    if lit_int(el) == 2147483647:
+                        out.add(("tuple", n["pat"]["lid"], i_))
+    return out
+
+
+def _is_min_local(f, e):
+    """the expression is the running-minimum place"""
+    return _place(e) in _min_places(f)
+
+
+def _updates(f, block, mn):
+    """(value assigned to the minimum place `mn` inside block or None, number of other places assigned together with it)"""
+    val, others = None, []
+    for x, _ in walk(block):
+        if x.get("k") != "Assign":
+            continue
+        pl = _place(x["l"])
+        if pl == mn:
+            val = x["r"]
+        elif mn[0] == "tuple" and pl == ("local", mn[1]) and peel(x["r"]).get("k") == "Tup":
+            el = peel(x["r"])["elems"]
+            if mn[2] < len(el):
+                val = el[mn[2]]
+                others += ["%s.%d" % (render(x["l"]), i_) for i_ in range(len(el)) if i_ != mn[2]]
+        elif pl is not None:
+            others.append(render(x["l"]))
+    return val, others
 
 
 @rule("C02.min", "the running minimum and the back-pointer are assigned together under `new < min` (accepted: <, <=, swapped >, >=); "
@@ -193,17 +236,14 @@ def min_rule(db, ctx):
             new, mn, opn = r, l, SWAP[op]
         else:
             continue
-        if not any(x.get("k") == "Assign" and local_name(x["l"]) == local_name(mn) for x, _ in walk(ifn["then"])):
+        mnp = _place(mn)
+        val, others = _updates(f, ifn["then"], mnp)
+        if val is None:
             continue  # a comparison with the minimum that does not update it is not the update guard
         found = True
         ok_op = opn in ("Lt", "Le")
-        assigned = {}
-        for x, _ in walk(ifn["then"]):
-            if x.get("k") == "Assign" and local_name(x["l"]):
-                assigned[local_name(x["l"])] = x["r"]
-        mn_name = local_name(mn)
-        same_src = mn_name in assigned and local_name(assigned[mn_name]) == local_name(new) and local_name(new) is not None
-        others = [k for k in assigned if k != mn_name]
+        from ..inline import nf
+        same_src = nf(val) == nf(new)
         ok = ok_op and same_src and len(others) >= 1 and "else" not in ifn
         ctx.ob("connect_node|update-guard", ok,
                "update `%s`: comparison normalised to new %s min (must be < or <=); min assigned from the compared candidate: %s; "
@@ -211,9 +251,12 @@ def min_rule(db, ctx):
         # returned tuple = (back-pointer, min)
         ret = peel(f.hir.get("expr")) if f.hir.get("k") == "Block" else None
         if ret and ret.get("k") == "Tup":
-            names = [local_name(e) for e in ret["elems"]]
-            ctx.ob("connect_node|returns", mn_name in names and any(o in names for o in others),
-                   "connect_node returns %s (must contain the back-pointer and the minimum)" % names, fn=f)
+            places = [_place(e) for e in ret["elems"]]
+            ctx.ob("connect_node|returns", mnp in places and len([p_ for p_ in places if p_ and p_ != mnp]) >= 1,
+                   "connect_node returns %s (must contain the back-pointer and the minimum)" % [render(e) for e in ret["elems"]], fn=f)
+        elif ret is not None:
+            ctx.ob("connect_node|returns", mnp[0] == "tuple" and _place(ret) == ("local", mnp[1]),
+                   "connect_node returns `%s` (must be the (back-pointer, minimum) accumulator)" % render(ret), fn=f)
     if not found:
         raise AnchorMissing("connect_node: `if new < min` update")
     ins = db.one("insert", "Lattice")
@@ -325,8 +368,16 @@ def order(db, ctx):
 
 def poly(db, f, e, depth=0):
     """sum-of-products normal form of an integer expression: {tuple(sorted factor names)): coeff}"""
-    e = peel_casts(e)
+    from ..db import diverges
+    e = peel_casts(unwrap_try(peel_casts(e)))
     k = e.get("k")
+    # the value of a block is its tail; the value of an `if` one of whose branches leaves the function is the other branch
+    if k == "Block" and "expr" in e and depth < 24:
+        return poly(db, f, e["expr"], depth + 1)
+    if k == "If" and "else" in e and depth < 24:
+        live = [b for b in (e["then"], e["else"]) if not diverges(b)]
+        if len(live) == 1:
+            return poly(db, f, live[0], depth + 1)
     if k == "Binary" and e["op"] == "Add":
         a, b = poly(db, f, e["l"], depth), poly(db, f, e["r"], depth)
         out = dict(a)
@@ -344,11 +395,13 @@ def poly(db, f, e, depth=0):
     v = lit_int(e)
     if v is not None:
         return {(): v}
+    if k == "Path" and e.get("res") == "def" and isinstance(e.get("val"), int):
+        return {(): e["val"]}          # a named constant
     if k == "Field":
         return {("field:" + e["name"],): 1}
     if k == "Path" and e.get("res") == "local":
         b = oindex(db).bindings(f).get(e["lid"])
-        if b and b[0] == "let" and b[1] is not None and depth < 6:
+        if b and b[0] == "let" and b[1] is not None and depth < 24:
             return poly(db, f, b[1], depth + 1)
         if b and b[0] == "param":
             return {("param:" + e["name"],): 1}
@@ -363,7 +416,7 @@ def matrix_index(db, ctx):
     p_rd = poly(db, rd, ret)
     want = {("field:num_left", "param:right"): 1, ("param:left",): 1}
     ctx.ob("ConnectionMatrix::index|polynomial", p_rd == want, "reader index = %s (expected right*num_left + left)" % _fmt(p_rd), fn=rd)
-    wr = db.one("write_elem", "ConnBuffer")
+    wr = db.view(db.one("write_elem", "ConnBuffer"))
     sites = [n for n, _ in walk(wr.hir) if n.get("k") == "Index" and peel(n["e"]).get("name") == "matrix"]
     polys = sorted((_fmt(poly(db, wr, s["i"])) for s in sites))
     want_b = {("field:num_left", "param:right"): 2, ("param:left",): 2}
